@@ -202,11 +202,11 @@ func parseCase(line string) (Case, error) {
 func nVariants(dk byte) int {
 	switch dk {
 	case 'c':
-		return 5
+		return 6
 	case 'i':
-		return 3
+		return 4
 	default:
-		return 3
+		return 5
 	}
 }
 
@@ -257,6 +257,18 @@ func (m *Model) Define(vm int, dk byte, name int) int {
 		m.Owner[s] = fmt.Sprintf("t%d#%d", vm, m.Inc[vm])
 	}
 	return s
+}
+
+// DefineAs records a definition whose serial is fixed by its (shared) source: a function
+// declared by the body of a base-created closure is the same AST for every VM that runs it.
+func (m *Model) DefineAs(vm int, dk byte, name, serial int) {
+	k := cellKey{dk, name}
+	if vm == 0 {
+		m.B[k] = serial
+	} else {
+		m.T[vm][k] = append(m.T[vm][k], serial)
+	}
+	m.Owner[serial] = "whichever VMs ran the declaring base closure"
 }
 
 func (m *Model) Discard(vm int) {
